@@ -219,9 +219,7 @@ def c14_delete_recomputes_work(ctx, v):
         if o.kind in ("unsupported", "unwound", "path-limit"):
             return v.undecided("%s %s" % (o.kind, o.info))
         if o.kind == "panic":
-            v.queries += 1
-            if ex.feasible(o.pc):
-                v.fail("delete_transactions panics: %s" % o.info)
+            L.report_panic(v, ex, o, "delete_transactions panics: %s" % o.info)
             continue
         if o.kind != "return":
             continue
